@@ -278,7 +278,21 @@ fn driver(prop: &str, tier: Tier) -> i32 {
             }
             out
         };
-        if c1 != c2 || mask(&verdict1) != mask(&verdict2) {
+        // under std's RandomState the implementation's behaviour may legitimately differ in detail from
+        // process to process when (and only when) it depends on hash values, which is C18's subject:
+        // there the two replays must fail in the same way up to the numbers in the message
+        let random_hasher = c.hasher == <types::StdRandom as types::HB>::NAME;
+        let class = |s: &str| -> String {
+            let m = mask(s);
+            if random_hasher {
+                let mut t: String = m.chars().filter(|ch| !ch.is_ascii_digit()).collect();
+                t.truncate(160);
+                t
+            } else {
+                m
+            }
+        };
+        if c1 != c2 || class(&verdict1) != class(&verdict2) {
             eprintln!("replay of {path} is not deterministic ({c1} vs {c2}): machinery error, no verdict");
             machinery_error = true;
             continue;
